@@ -73,7 +73,16 @@ Funcs == {
   PF("sigclash", <<InA, InB, SFunc("g", <<FX>>, <<SLet("Signal", "a", Bin("+", Ref("x"), Num(1)))>>, Bin("*", Ref("a"), Num(2))), SLet("Signal", "r", CallE("g", <<B>>)), SLet("Signal", "s", Bin("+", A, Ref("r")))>>, "val"),
   PF("mem", <<SIn("d", "signal-M", 5), SIn("g", "signal-G", 0), SIn("h", "signal-H", 0),
               SFunc("cell", <<[ty |-> "Signal", n |-> "v"], [ty |-> "Signal", n |-> "en"]>>, <<SMem("m", "signal-M"), SWrite("m", Ref("v"), "when", Bin(">", Ref("en"), Num(0)), Num(0))>>, ReadE("m")),
-              SLet("Signal", "r", CallE("cell", <<Ref("d"), Ref("g")>>)), SLet("Signal", "s", CallE("cell", <<Ref("d"), Ref("h")>>))>>, "hist")
+              SLet("Signal", "r", CallE("cell", <<Ref("d"), Ref("g")>>)), SLet("Signal", "s", CallE("cell", <<Ref("d"), Ref("h")>>))>>, "hist"),
+  \* a callee-local Memory named like a cell of the CALLER that the caller goes on using after the call
+  PF("memclash", <<SIn("d", "signal-M", 5), SIn("g", "signal-G", 0), SIn("h", "signal-H", 0),
+              SFunc("cell", <<[ty |-> "Signal", n |-> "v"], [ty |-> "Signal", n |-> "en"]>>, <<SMem("m", "signal-M"), SWrite("m", Ref("v"), "when", Bin(">", Ref("en"), Num(0)), Num(0))>>, ReadE("m")),
+              SMem("m", "signal-M"), SWrite("m", Bin("+", Ref("d"), Num(1)), "when", Bin(">", Ref("h"), Num(0)), Num(0)),
+              SLet("Signal", "r", CallE("cell", <<Ref("d"), Ref("g")>>)), SLet("Signal", "s", ReadE("m"))>>, "hist"),
+  PF("memclash", <<SIn("d", "signal-M", 5), SIn("g", "signal-G", 0), SIn("h", "signal-H", 0),
+              SFunc("cell", <<[ty |-> "Signal", n |-> "v"], [ty |-> "Signal", n |-> "en"]>>, <<SMem("m", "signal-M"), SWrite("m", Ref("v"), "when", Bin(">", Ref("en"), Num(0)), Num(0))>>, ReadE("m")),
+              SMem("m", "signal-M"), SLet("Signal", "r", CallE("cell", <<Ref("d"), Ref("g")>>)),
+              SWrite("m", Bin("+", Ref("d"), Num(1)), "when", Bin(">", Ref("h"), Num(0)), Num(0)), SLet("Signal", "s", ReadE("m"))>>, "hist")
  }
 ASSUME PrintT(<<"NPROGS", Cardinality(LoopAll), Cardinality(Funcs)>>)
 ASSUME JsonSerialize(IOEnv.GEN_OUT, SetToSeq({[p EXCEPT !.grp = "loop:" \o p.grp] : p \in LoopAll}) \o SetToSeq({[p EXCEPT !.grp = "func:" \o p.grp] : p \in Funcs}))
